@@ -433,6 +433,134 @@ def rule_r7(facts, col):
         col.ok("C08.R7", "no-advanced-copies", "", "no work() body advances a by-value copy of its carried state")
 
 
+def _field_writes(facts, body, depth=1):
+    """bb -> first-level fields of *self written there: an assignment into (*self).f.., a call with a `&mut (*self).f..`
+    receiver, or a call handing `&mut *self` to a method of the same type that writes f (depth-limited)"""
+    from ..mir import self_field_path
+    out = {}
+    for bb in sorted(body.reachable(0)):
+        for st in body.blocks[bb]["stmts"]:
+            if st["k"] == "assign" and st["dst"]["l"] == 1 and st["dst"]["p"] and st["dst"]["p"][0] == "*":
+                pj = st["dst"]["p"]
+                if len(pj) >= 2 and isinstance(pj[1], dict):
+                    out.setdefault(bb, set()).add(pj[1].get("n"))
+        t = body.term(bb)
+        if t["k"] == "call" and t.get("args"):
+            a0 = body.operand_expr(t["args"][0])
+            if a0.k == "ref" and getattr(a0, "mut", False):
+                fp = self_field_path(a0.a)
+                if fp:
+                    out.setdefault(bb, set()).add(fp[0])
+                elif fp == [] and depth > 0 and body.self_adt:
+                    for q in Body.callee_qs(t):
+                        for hb in facts.by_q.get(q, []):
+                            if hb.kind != "closure" and hb.self_adt == body.self_adt:
+                                for fs in _field_writes(facts, hb, depth - 1).values():
+                                    out.setdefault(bb, set()).update(fs)
+    return out
+
+
+def _self_fields_in(e):
+    from ..mir import self_field_path
+    out = set()
+    for x in walk(e):
+        if x.k == "field":
+            fp = self_field_path(x)
+            if fp:
+                out.add(fp[0])
+    return out
+
+
+def _limit_resets(facts, body, region, grown):
+    """(switch bb, write bb, field) for: a switch in `region` on an ordering comparison between state in `grown` and something
+    that is not, one arm of which - and not the other - discards a `grown` field entirely (clear() / assignment of a constant)"""
+    from ..mir import self_field_path
+    out = []
+    resets = {}
+    for bb in sorted(region):
+        for st in body.blocks[bb]["stmts"]:
+            if st["k"] == "assign" and st["dst"]["l"] == 1 and st["dst"]["p"] and st["dst"]["p"][0] == "*":
+                pj = st["dst"]["p"]
+                if len(pj) == 2 and isinstance(pj[1], dict) and pj[1].get("n") in grown:
+                    rv = peel(body.rvalue_expr(st["rv"]), through_try=False)
+                    if rv.k == "const" or (rv.k == "agg" and not rv.args):
+                        resets.setdefault(bb, set()).add(pj[1].get("n"))
+        t = body.term(bb)
+        if t["k"] == "call" and t.get("args") and t["f"].get("name") == "clear":
+            a0 = body.operand_expr(t["args"][0])
+            if a0.k == "ref":
+                fp = self_field_path(a0.a)
+                if fp and fp[0] in grown:
+                    resets.setdefault(bb, set()).add(fp[0])
+    if not resets:
+        return out
+    rets = set(body.return_blocks())
+    for sb in sorted(region):
+        if body.term(sb)["k"] != "switch":
+            continue
+        d = peel(switch_discr_expr(body, sb), through_try=False)
+        if d.k == "un" and d.op == "Not":
+            d = peel(d.a, through_try=False)
+        if not (d.k == "bin" and d.op in ("Gt", "Ge", "Lt", "Le")):
+            continue
+        fa, fb_ = _self_fields_in(d.a) & grown, _self_fields_in(d.b) & grown
+        if bool(fa) == bool(fb_):
+            continue
+        succs = [x for x in body.succ[sb]]
+        for wb, fs in resets.items():
+            arms_with = [x for x in succs if x == wb or wb in body.reachable(x)]
+            bypass = [x for x in succs if x not in arms_with and (body.reachable(x) & rets)]
+            if arms_with and bypass:
+                for f in sorted(fs):
+                    out.append((sb, wb, f))
+    return out
+
+
+def rule_r9(facts, col):
+    """carried state is decided per sample, not per work() call: where work() grows carried state inside its per-sample loop,
+    a limit on that state (ordering comparison against something the loop does not write) that discards it is not enforced
+    after the loop - there it would run once per read window, so whether the state is dropped depends on where the windows
+    happen to end"""
+    for body in facts.impl_bodies(BLOCK_TRAIT, "work"):
+        if body.from_derive:
+            continue
+        fw = _field_writes(facts, body)
+        k = 0
+        for c in sorted((c for c in sccs(body) if len(c) > 1), key=min):
+            grown = set()
+            for bb in c:
+                grown |= fw.get(bb, set())
+            if not grown:
+                continue
+            key = "%s:loop#%d" % (body.q, k)
+            k += 1
+            post = set()
+            for u, v in loop_exits(body, c):
+                post |= body.reachable(v)
+            post -= c
+            found = [(body, sb, wb, f) for sb, wb, f in _limit_resets(facts, body, post, grown)]
+            # ... or in a method of the block called after the loop
+            for bb in sorted(post):
+                t = body.term(bb)
+                if t["k"] == "call" and t.get("args"):
+                    a0 = body.operand_expr(t["args"][0])
+                    from ..mir import self_field_path
+                    if a0.k == "ref" and self_field_path(a0.a) == [] and body.self_adt:
+                        for q in Body.callee_qs(t):
+                            for hb in facts.by_q.get(q, []):
+                                if hb.kind != "closure" and hb.self_adt == body.self_adt:
+                                    found += [(hb, sb, wb, f) for sb, wb, f in _limit_resets(facts, hb, hb.reachable(0), grown)]
+            if found:
+                hb, sb, wb, f = found[0]
+                col.bad("C08.R9", key, hb.where(wb),
+                        "self.%s is built up sample by sample in work()'s loop (%s), but the limit check at %s that discards it runs "
+                        "after the loop, i.e. once per work() call: whether the state is dropped depends on where the read windows end, so "
+                        "the same input delivered in different piece sizes gives different output" % (f, body.where(min(c)), hb.where(sb)), {})
+            else:
+                col.ok("C08.R9", key, body.where(min(c)),
+                       "state written in the loop (%s): no per-call limit/discard of it after the loop" % ", ".join(sorted(grown)))
+
+
 def from_logging(t):
     sp = t.get("sp") or {}
     return any(x.startswith(("log::", "debug!", "trace!", "info!", "warn!", "error!", "format_args!", "eprintln!", "println!")) or "log" in x
@@ -456,6 +584,8 @@ def run(ctx):
     rule_r6(facts, ctx)
     rule_r8(facts, ctx)
     ctx.floor("C08.R8", 8, "fill_from_* sites of the crate's work() bodies")
+    rule_r9(facts, ctx)
+    ctx.floor("C08.R9", 5, "per-sample loops of hand-written work() bodies that write carried state (8 today)")
     rule_r7(facts, ctx)
     ctx.floor("C08.R7", 1, "advanced copies of carried state (or the statement that there are none)")
     ctx.floor("C08.R5", 1, "RationalResampler's counted consume")
